@@ -23,6 +23,7 @@ it, plus a few context-free renderings of the same text that TLC cannot compute 
              "nr": bool,              the <c> has no r= attribute
              "rf": bool,              the <c> is the first one of its <row> element
              "rra": int,              r= of that <row> (0 = absent)
+             "rown": int,             the number this module derived for the cell's <row> element
              "rpre": [int],           r= (0 = absent) of the cell-less <row> elements between the previous cell's row
                                       and this one (only on the first cell of a row)
              "t": str, "s": int,      attributes as written ("" / -1 = absent)
@@ -473,7 +474,7 @@ def _sheet(pkg, part, want_cells=True):
                 rpre.append(rra)
             for ci, c in enumerate(cs):
                 # what the specification needs to derive the position itself (Decode!RowAfter / CellPosition)
-                rowinfo = {"rf": ci == 0, "rra": rra, "rpre": rpre if ci == 0 else []}
+                rowinfo = {"rf": ci == 0, "rra": rra, "rpre": rpre if ci == 0 else [], "rown": rnum}
                 if ci == 0:
                     rpre = []
                 ref = c.get("r")
